@@ -8,6 +8,10 @@ from .model import _short, _tail, _d
 class SweepMixin(object):
     expect_sweep_failure = False
     sweep_failed_before = False     # a failed sweep stamps nothing; the "recently subscribed" rule is off afterwards
+    irregular_sweeps = False        # the process was suspended at some point (`jump`): sweeps were not one period apart,
+                                    # so "away for the expiration time minus one period" does not follow any more; what
+                                    # is left of C12 is the statement itself: subscribed at the sweep, or active within
+                                    # the expiration time before it
 
     def _subscribed(self, m):
         return [cm.name for cm in self.cm.values() if cm.alive and cm.sub is m]
@@ -59,7 +63,8 @@ class SweepMixin(object):
             age_low = now - m.t_low
             age_high = now - m.t_high
             t_unsub = getattr(m, "t_unsub", None)
-            recently_subscribed = t_unsub is not None and (now - t_unsub) < (EXPIRY - PERIOD) and not self.sweep_failed_before
+            recently_subscribed = t_unsub is not None and (now - t_unsub) < (EXPIRY - PERIOD) and not self.sweep_failed_before \
+                and not self.irregular_sweeps
             if recently_subscribed and not (subs or age_low < EXPIRY):
                 self.ev["c12_must_survive_recently_subscribed"] += 1
             if subs or age_low < EXPIRY or recently_subscribed:
